@@ -147,5 +147,45 @@ def _imp(mod, name, rid):
     return run
 
 
-RULES = [geometry, _imp("c01", "sort_rule", "C01.SORT"), _imp("c01", "chain_rule", "C01.CHAIN"), _imp("c01", "gap_rule", "C01.GAP"), _imp("c01", "writeback", "C01.WRITEBACK"),
+@rule("C08.POSITIVE-SIZE")
+def positive_size(ctx, R):
+    """The band argument takes every box to have a positive extent: the sizes the library itself supplies when the caller
+    gives none (the default label height, the default width) are positive constants."""
+    P = ctx.P
+    n = 0
+    f = P.func("timeline.Item.__init__")
+    R.saw(f)
+    selfn = f.params[0]
+    for nd in walk_local(f.node):
+        if isinstance(nd, ast.Assign):
+            for t in nd.targets:
+                for tt in (t.elts if isinstance(t, (ast.Tuple, ast.List)) else [t]):
+                    if isinstance(tt, ast.Attribute) and isinstance(tt.value, ast.Name) and tt.value.id == selfn and tt.attr in ("height", "width"):
+                        v = _const_num(nd.value, f.module)
+                        if v is not None:
+                            n += 1
+                            R.check(v > 0, "C08.POSITIVE-SIZE", "%s|default %s" % (f.qual, tt.attr), where(f, nd), "default %s %s > 0" % (tt.attr, v), "`%s`: a label without an explicit size gets the %s %s: boxes of non-positive extent are not the intervals that were separated" % (ntext(nd)[:50], tt.attr, v))
+    m = P.modules["timeline"]
+    for a in m.global_assigns("DEFAULT_WIDTH"):
+        v = _const_num(a.value, m)
+        if v is not None:
+            n += 1
+            R.check(v > 0, "C08.POSITIVE-SIZE", "timeline.DEFAULT_WIDTH", mwhere(m, a), "DEFAULT_WIDTH %s > 0" % v, "DEFAULT_WIDTH is %s" % v)
+    R.check(n >= 1, "C08.POSITIVE-SIZE.inventory", "default sizes examined: %d" % n, "", "", "no default size constant found", nontrivial=False)
+
+
+def _const_num(e, mod):
+    if isinstance(e, ast.UnaryOp) and isinstance(e.op, ast.USub):
+        v = _const_num(e.operand, mod)
+        return None if v is None else -v
+    if isinstance(e, ast.Constant) and isinstance(e.value, (int, float)) and not isinstance(e.value, bool):
+        return e.value
+    if isinstance(e, ast.Name):
+        ga = mod.global_assigns(e.id)
+        if len(ga) == 1:
+            return _const_num(ga[0].value, mod)
+    return None
+
+
+RULES = [geometry, positive_size, _imp("c01", "sort_rule", "C01.SORT"), _imp("c01", "chain_rule", "C01.CHAIN"), _imp("c01", "gap_rule", "C01.GAP"), _imp("c01", "writeback", "C01.WRITEBACK"),
          _imp("c01", "alllayers", "C01.ALLLAYERS"), _imp("c04", "layeridx", "C04.LAYERIDX"), _imp("c11", "timeline_opts", "GEN.OPTS-MERGE")]
